@@ -94,6 +94,54 @@ def own_key_checks(ld, r, count):
     return fails
 
 
+def key_source_history(ld, r, count):
+    """dict-backed sources of every immutability mode built from a plain dict, a defaultdict, a Counter or an OrderedDict: keys(),
+    items(), len and key lookup stay aligned - an absent key is refused (also by a source mapping that would invent a value for it),
+    and later changes of the caller's mapping do not show"""
+    import collections
+    fails = []
+    for _ in range(count):
+        n = r.randint(0, 5)
+        mode = r.choice(['pickle', 'copy', None])
+        kind = r.choice(['dict', 'defaultdict', 'Counter', 'OrderedDict'])
+        pairs = [(f'k{i}', i + 1) for i in range(n)]
+        src = dict(pairs) if kind == 'dict' else collections.defaultdict(int, pairs) if kind == 'defaultdict' else collections.Counter(dict(pairs)) if kind == 'Counter' else collections.OrderedDict(pairs)
+        try:
+            ds = ld.new(src) if mode is None else ld.new(src, immutable_warranty=mode)
+        except Exception:
+            continue
+        stack = r.choice(['plain', 'map', 'slice'])
+        top = ds if stack == 'plain' else ds.map(_same03) if stack == 'map' else ds[:]
+
+        def view():
+            out = []
+            for f in (lambda: list(top.keys()), lambda: list(top.items()), lambda: len(top), lambda: [top[k] for k, _ in pairs], lambda: list(top)):
+                try:
+                    out.append(f())
+                except Exception as e:
+                    out.append(('raised', type(e).__name__))
+            for k in ('zz9', 'nope'):
+                try:
+                    out.append(('absent key served', k, top[k]))
+                except Exception:
+                    out.append('refused')
+            return out
+        before = view()
+        what = r.choice(['add', 'remove', 'none'])
+        if what == 'add': src['zz9'] = 99
+        elif what == 'remove' and src: src.pop(next(iter(src)))
+        after = view()
+        want = [[k for k, _ in pairs], pairs, n, [v for _, v in pairs], [v for _, v in pairs], 'refused', 'refused']
+        if before != want or after != want:
+            fails.append(f'new({kind} of {n}, immutable_warranty={mode!r}) [{stack}], caller then does "{what}" on its mapping: keys / items / len / lookups / values / absent keys '
+                         f'= {before} then {after}; expected {want} both times')
+    return fails
+
+
+def _same03(x):
+    return x
+
+
 def gen_a_keys():
     from .. import gen_a
     return gen_a.KEYS
@@ -108,6 +156,9 @@ def run(tier):
     for msg in own_key_checks(common.import_impl(), common.rng_for('C03own'), cnt)[:5]:
         res['failures'].append(dict(kind='program', summary=msg[:700]))
     res['coverage']['own_key_pipelines'] = cnt * 14
+    for msg in key_source_history(common.import_impl(), common.rng_for('C03src'), cnt)[:5]:
+        res['failures'].append(dict(kind='program', summary=msg[:800]))
+    res['coverage']['key_source_histories'] = cnt
     return res
 
 
